@@ -20,12 +20,40 @@ type emitter struct {
 	classes  *bufio.Writer
 	n        int
 	twinImpl bool
+	win      []string // the last eligible lines, for `seq`
+	groups   int
 }
+
+// Ops whose lines may be glued into a `seq` line (pure, stateless in the model, no random tape, no known finding attached).
+var seqOps = map[string]bool{"b58.dec": true, "b58.cdec": true, "b58.enc": true, "b58.cenc": true, "der.parse": true, "der.lax": true,
+	"der.ser": true, "wif.dec": true, "wif.enc": true, "addr": true, "hash.sha256": true, "hash.sha256d": true, "hash.ripemd160": true,
+	"hash.hash160": true, "parsepub": true, "serpub": true, "privbytes": true, "curve.add": true, "curve.double": true, "curve.smul": true,
+	"curve.sbmul": true, "curve.oncurve": true, "verify": true, "compact.recover": true, "compact.sign": true, "ecdh": true,
+	"bip39.seed": true, "bip39.mn": true, "dpath.fwd": true, "dpath.back": true, "env.valid": true, "json.quote": true, "json.unquote": true,
+	"json.roundtrip": true}
 
 func (e *emitter) emit(class, line string) {
 	fmt.Fprintln(e.ops, line)
 	fmt.Fprintln(e.classes, class)
 	e.n++
+	// Neighbouring lines of a generator are relatives (the honest input, its twin, its one-field variants).  The shards deal
+	// lines round-robin, so neighbours never meet in one process; every so often three neighbours are therefore ALSO emitted as
+	// one `seq` line — l1 | l2 | l3 | l1, executed back to back — which is what a memo of the last call or the last result
+	// keyed by part of the input gets wrong.
+	if op := line; len(op) > 0 {
+		if i := strings.IndexByte(op, ' '); i > 0 && seqOps[op[:i]] && len(line) < 20000 {
+			e.win = append(e.win, line)
+			if len(e.win) == 3 {
+				if e.groups < 40 || e.groups%8 == 0 {
+					fmt.Fprintln(e.ops, "seq "+e.win[0]+" | "+e.win[1]+" | "+e.win[2]+" | "+e.win[0])
+					fmt.Fprintln(e.classes, "seq."+op[:i])
+					e.n++
+				}
+				e.groups++
+				e.win = e.win[:0]
+			}
+		}
+	}
 	// every API-level curve op is also run against the code-shaped model (impl.*)
 	if e.twinImpl && strings.HasPrefix(line, "curve.") {
 		fmt.Fprintln(e.ops, "impl."+line[len("curve."):])
